@@ -68,8 +68,11 @@ def configs(tier):
                 if entry == 'Gillespie_SIS':
                     c['truncate'] = True
                 out.append(c)
+                if I0 == [0] and entry in ('Gillespie_SIR', 'Gillespie_SIS', 'fast_SIR', 'fast_nonMarkov_SIR') and (full or entry.startswith('Gillespie')):
+                    # the triangle is the smallest graph on which the order of a neighbour loop can change a candidate list
+                    out.append(dict(c, graph='K3', tags=c['tags'] + ['K3']))
     for c in C03.configs(tier):
-        if c['graph'] == 'P3' and c['mode'] == 'plain' and c['spec'] in ('SIS', 'compete') and c['ic'][0] != 'S':
+        if c['graph'] in ('P3', 'K3') and c['mode'] == 'plain' and c['spec'] in ('SIS', 'compete') and c['ic'][0] != 'S':
             out.append(dict(c, family='order-simple', tags=['order-simple'] + c['tags']))
     return out
 
